@@ -24,6 +24,11 @@ fn write_field(
         if let Some(custom_translation) = custom_translations {
             // Register the type the translation functions are defined for, not the `Optional[..]`
             // wrapper around it: the functions are looked up by that name when they are written.
+            if python_type == "datetime" {
+                // The translation functions written for this type call `datetime` themselves,
+                // whatever Rust type (or type mapping) the name came from.
+                self.add_import("datetime".to_string(), "datetime".to_string());
+            }
             self.types_for_custom_json_translation.insert(python_type);
             field_type = format!(
                 "Annotated[{field_type}, BeforeValidator({}), PlainSerializer({})]",
